@@ -133,6 +133,7 @@ SCENARIO_BY_OBLIGATION = {
     ("C13", "O13.2/no_silent_fallback"): ["fallback-snapshot"],
     ("C13", "O13.3/midframe_eof"): ["midframe-eof"],
     ("C13", "O13.6/manifest_keys"): ["manifest-key-flip"],
+    ("C13", "O13.7/seq_continuity"): ["clean-truncation"],
     ("C01", "O1.5/crash_window"): ["crash-after-unlink"],
     ("C01", "O1.3/periodic_idle"): ["periodic-idle"],
     ("C03", "O3.1/pinned"): ["failed-overwrite", "nan"],
